@@ -52,7 +52,7 @@ def plan(tier, seed):
 
 
 def mandatory(tier):
-    return [f"mode/{m}" for m in MODES] + ["affine", "translation", "translation/sigma", "scaling", "spacing", "bspline", "lame", "inverse_consistency/cube", "inverse_consistency/voxel", "inverse_consistency/world", "modules", "modules/elastic_constants", "default_spacing", "linear_tensor", "inverse_consistency/float_margin", "inverse_consistency/dense_exact_pair", "grad_loss/p/int/odd", "grad_loss/p/int/other", "grad_loss/p/float/other"]
+    return [f"mode/{m}" for m in MODES] + ["affine", "translation", "translation/sigma", "scaling", "spacing", "bspline", "lame", "inverse_consistency/cube", "inverse_consistency/voxel", "inverse_consistency/world", "modules", "modules/elastic_constants", "default_spacing", "linear_tensor", "inverse_consistency/float_margin", "inverse_consistency/reductions", "inverse_consistency/dense_exact_pair", "grad_loss/p/int/odd", "grad_loss/p/int/other", "grad_loss/p/float/other"]
 
 
 def interior(a, m):
@@ -321,6 +321,17 @@ def case(ctx, i):
                 mask.reshape(-1)[0] = 1
                 vm = LF.inverse_consistency_loss(fwd, ident, grid=g, units=units, mask=mask)
                 ctx.close("masked_mean_counts_only_foreground", vm, want, 1e-6 * (1 + want), key=f"inverse_consistency/{units}/mask", **gi)
+                # reductions of the constant error: sum = value x number of samples kept; a batch of N pairs with one
+                # shared mask; mask together with a margin (foreground inside the kept region counts)
+                ctx.close("sum_is_sum_of_none", LF.inverse_consistency_loss(fwd, ident, grid=g, units=units, reduction="sum"), none.double().sum(), 1e-6 * (1 + float(none.double().sum())), key=f"inverse_consistency/{units}/reduction/sum", **gi)
+                ctx.close("sum_with_margin_is_sum_of_none", LF.inverse_consistency_loss(fwd, ident, grid=g, units=units, margin=mrg, reduction="sum"), nm.double().sum(), 1e-6 * (1 + float(nm.double().sum())), key=f"inverse_consistency/{units}/reduction/sum", **gi)
+                fwd2 = torch.cat([fwd, fwd], dim=0)
+                id2 = torch.cat([ident, ident], dim=0)
+                vb = LF.inverse_consistency_loss(fwd2, id2, grid=g, units=units, mask=mask)
+                ctx.close("masked_mean_of_batch_with_shared_mask", vb, want, 1e-6 * (1 + want), key=f"inverse_consistency/{units}/mask/shared_over_batch", **gi)
+                vmm = LF.inverse_consistency_loss(fwd, ident, grid=g, units=units, mask=mask, margin=mrg)
+                ctx.close("masked_mean_with_margin_counts_foreground_inside_kept_region", vmm, want, 1e-6 * (1 + want), key=f"inverse_consistency/{units}/mask/margin", **gi)
+                ctx.bucket("inverse_consistency/reductions")
             # dense exact inverse pair: a contraction M of the cube (affine, keeps the domain invariant) as dense field,
             # its inverse M^-1 as dense field; linear interpolation reproduces affine fields, so the error is rounding
             Hh, bh = F.invariant_affine(rng, tuple(g.shape), ac)
